@@ -437,6 +437,17 @@ def run(ctx):
     gates = sorted(lm.gate_text)
     ctx.extra['program'] = dict(acts=sum(len(p) for p in info['progs']), gates=len(gates), entries=info['entries'],
                                 translator_assumptions=info['assumptions'], summarised=info['summaries'])
+  # corpus first: the witnesses of the repaired findings (and anything kept from earlier failures) must hold now
+  import glob
+  from harness.lib.common import VERIF
+  ncorpus = 0
+  for f in sorted(glob.glob(os.path.join(VERIF, 'corpus', 'C16', '*.json'))):
+    w = json.load(open(f))
+    r = execute(ctx, w['cfg'], lm, env, lambda w=w: core.replay_strategy(w['decisions'], then=core.random_strategy(random.Random(1))))
+    ncorpus += 1
+    if r.ctl.outcome in ('finished', 'deadlock'):
+      record_hits(ctx, r, w['cfg'], dict(kind='corpus', file=os.path.basename(f)))
+  ctx.extra['corpus_replayed'] = ncorpus
   nsched = ctx.scale(110, 4000)
   budget = ctx.scale(75.0, 1200.0)
   t_start = time.time()
